@@ -167,6 +167,8 @@ struct Endpoint {
     /// Pending injected failures
     fail_send: u32,
     fail_recv: u32,
+    /// When set, the node has crashed in the middle of a poll: whatever it still emits is discarded
+    frozen: Option<Rc<std::cell::Cell<bool>>>,
 }
 
 pub struct NetInner {
@@ -212,6 +214,7 @@ impl Net {
                 groups: Vec::new(),
                 fail_send: 0,
                 fail_recv: 0,
+                frozen: None,
             },
         );
         (
@@ -237,6 +240,12 @@ impl Net {
             if !up {
                 ep.inbox.clear();
             }
+        }
+    }
+
+    pub fn set_frozen_flag(&self, node: usize, flag: Rc<std::cell::Cell<bool>>) {
+        if let Some(ep) = self.0.borrow_mut().endpoints.get_mut(&addr_key(&node_addr(node))) {
+            ep.frozen = Some(flag);
         }
     }
 
@@ -392,6 +401,10 @@ impl NetworkSend for SimSend {
             let inner = &mut *inner;
             let key = addr_key(&node_addr(self.node));
             let ep = inner.endpoints.get_mut(&key).expect("attached");
+            if matches!(&ep.frozen, Some(f) if f.get()) {
+                kernel::trace("send_frozen", self.node as u64, 0, &[]);
+                return Ok(());
+            }
             if ep.fail_send > 0 {
                 ep.fail_send -= 1;
                 inner.stats.send_errors += 1;
